@@ -1,6 +1,10 @@
 package router
 
-import "github.com/gammazero/nexus/v3/wamp"
+import (
+	"time"
+
+	"github.com/gammazero/nexus/v3/wamp"
+)
 
 // C20: event history retention and query.
 
@@ -316,7 +320,13 @@ func Harness_C20_QueryCombined() {
 	}
 	topicFilter := vChoice("topic.filter", 3) // none, h.a, h.b
 	if topicFilter > 0 {
-		kw["topic"] = string(topics[topicFilter-1])
+		// a remote client's topic arrives as a string; an in-process client may
+		// as well pass the URI typed as it uses it everywhere else
+		if vBool("topic.filter.typed-as-URI") {
+			kw["topic"] = topics[topicFilter-1]
+		} else {
+			kw["topic"] = string(topics[topicFilter-1])
+		}
 	}
 	limit := vChoice("limit", 3) // none, 1, 2
 	if limit > 0 {
@@ -421,4 +431,93 @@ func Harness_C20_RetainedNotTheDeliveredEvent() {
 	if nSubs > 0 {
 		vCover("retained-next-to-live-delivery")
 	}
+}
+
+// time bounds placed exactly on (and between) the instants entries were
+// retained at, alone and combined with a publication bound
+//
+//verif:virtual-clock
+func Harness_C20_QueryTimeBounds() {
+	b, err := newBroker(vNopLog{}, false, true, false, nil, []*TopicEventHistoryConfig{{Topic: "h.t", MatchPolicy: wamp.MatchExact, Limit: 3}})
+	vAssert("broker-created", err == nil)
+	pub := vNewSess(81, nil, nil, 32)
+	lk := b.subLookup(&wamp.Invocation{Request: 1, Arguments: wamp.List{wamp.URI("h.t")}})
+	subID, _ := wamp.AsID(lk.(*wamp.Yield).Arguments[0])
+	var ids []wamp.ID
+	var ts []time.Time
+	for k := 0; k < 3; k++ {
+		vAdvance(int64(time.Second))
+		b.publish(pub.s, &wamp.Publish{Request: wamp.ID(100 + k), Topic: "h.t", Options: wamp.Dict{"acknowledge": true}, Arguments: wamp.List{int64(k)}})
+		vSyncBroker(b)
+		ts = append(ts, time.Now()) // the clock stands still while the broker works
+		for _, m := range pub.vDrain() {
+			if p, ok := m.(*wamp.Published); ok {
+				ids = append(ids, p.Publication)
+			}
+		}
+	}
+	vAssert("three-published", len(ids) == 3)
+	if len(ids) != 3 {
+		return
+	}
+	kw := wamp.Dict{}
+	tkind := vChoice("time-bound", 5) // none, from, after, before, until
+	ti := vChoice("time-bound.entry", 3)
+	between := vBool("time-bound.between-two-entries")
+	T := ts[ti]
+	if between {
+		T = T.Add(500 * time.Millisecond)
+	}
+	if tkind > 0 {
+		kw[[]string{"", "from_time", "after_time", "before_time", "until_time"}[tkind]] = T.Format(time.RFC3339Nano)
+	}
+	pkind := vChoice("publication-bound", 5) // none, from, after, before, until
+	pj := vChoice("publication-bound.entry", 3)
+	if pkind > 0 {
+		kw[[]string{"", "from_publication", "after_publication", "before_publication", "until_publication"}[pkind]] = ids[pj]
+	}
+	res := b.subEventHistory(&wamp.Invocation{Request: 2, Arguments: wamp.List{subID}, ArgumentsKw: kw})
+	evs, ok := vHistEvents(res)
+	vAssert("query-yields", ok)
+	if !ok {
+		return
+	}
+	var want []int
+	for k := 0; k < 3; k++ {
+		in := true
+		switch tkind {
+		case 1:
+			in = !ts[k].Before(T)
+		case 2:
+			in = ts[k].After(T)
+		case 3:
+			in = ts[k].Before(T)
+		case 4:
+			in = !ts[k].After(T)
+		}
+		switch pkind {
+		case 1:
+			in = in && k >= pj
+		case 2:
+			in = in && k > pj
+		case 3:
+			in = in && k < pj
+		case 4:
+			in = in && k <= pj
+		}
+		if in {
+			want = append(want, k)
+		}
+	}
+	vAssert("time-bounded-query-result-length", len(evs) == len(want))
+	if len(evs) == len(want) {
+		for i, w := range want {
+			se, ok := vStoredEventOf(evs[i])
+			vAssert("time-bounded-query-entry", ok && se.Publication == ids[w])
+		}
+	}
+	if tkind > 0 && pkind > 0 {
+		vCover("time-and-publication-bound")
+	}
+	vCover("time-bound-query-done")
 }
